@@ -11,8 +11,12 @@ VARIABLE S
 Init == S \in UNION {InitStates(c, "mc", <<>>) : c \in Range(Family)}
 
 \* simulate_until_max_time: events strictly before the horizon
+\* simulate_until_max_customers: events while the method's counter is below the target
+Running == IF S.cfg.stop = "time" THEN MinDate(S) < S.cfg.T
+           ELSE P!Counter(S.cfg, S) < S.cfg.maxc /\ MinDate(S) < INF
+
 Next == /\ Ok(S)
-        /\ MinDate(S) < S.cfg.T
+        /\ Running
         /\ S' \in Event(S)
 
 Spec == Init /\ [][Next]_S
@@ -28,14 +32,24 @@ NoCrash == S.err = "" \/ SubSeq(S.err, 1, 10) = "unmodelled"
 
 Inv_C01 == P!F_C01_inv(S.cfg, S) = {}
 Inv_C03 == P!F_C03_inv(S.cfg, S) = {}
+Inv_C05 == P!F_C05_inv(S.cfg, S) = {}
 Inv_C06 == P!F_C06_inv(S.cfg, S) = {}
 Inv_C07 == P!F_C07_inv(S.cfg, S) = {}
+Inv_C09 == P!F_C09_inv(S.cfg, S) = {}
 Inv_C10 == P!F_C10_inv(S.cfg, S) = {}
+Inv_C11 == P!F_C11_inv(S.cfg, S) = {}
+Inv_C13 == P!F_C13_inv(S.cfg, S) = {}
 
 Step_C01 == [][P!F_C01_step(S.cfg, S, S') = {}]_S
 Step_C02 == [][P!F_C02_step(S.cfg, S, S') = {}]_S
 Step_C03 == [][P!F_C03_step(S.cfg, S, S') = {}]_S
+Step_C05 == [][P!F_C05_step(S.cfg, S, S') = {}]_S
 Step_C06 == [][P!F_C06_step(S.cfg, S, S') = {}]_S
 Step_C07 == [][P!F_C07_step(S.cfg, S, S') = {}]_S
+Step_C08 == [][P!F_C08_step(S.cfg, S, S') = {}]_S
+Step_C09 == [][P!F_C09_step(S.cfg, S, S', S.rt) = {}]_S
 Step_C10 == [][P!F_C10_step(S.cfg, S, S') = {}]_S
+Step_C11 == [][P!F_C11_step(S.cfg, S, S') = {}]_S
+Step_C13 == [][P!F_C13_step(S.cfg, S, S') = {}]_S
+Step_C14 == [][P!F_C14_step(S.cfg, S, S') = {}]_S
 =============================================================================
